@@ -399,6 +399,7 @@ func main() {
 			for f := 0; f < 4; f++ {
 				skipFile[f] = rng.Intn(4) == 0
 			}
+			touchedByMerge := map[int]bool{}
 			for _, b := range all {
 				if !ok {
 					break
@@ -416,13 +417,16 @@ func main() {
 					}
 					switch {
 					case !exists && rng.Intn(3) > 0:
+						touchedByMerge[f] = true
 						chs = append(chs, change{op: fmt.Sprintf("add %d %d %d", b, f, L), ch: &object.Change{To: entry(name, blob(rng, blobCache, L))}})
 						g.lens[b][f] = L
 					case !exists:
 					case rng.Intn(12) == 0:
+						touchedByMerge[f] = true
 						chs = append(chs, change{op: fmt.Sprintf("rm %d %d %d", b, f, cur), ch: &object.Change{From: entry(name, blob(rng, blobCache, cur))}})
 						delete(g.lens[b], f)
 					default:
+						touchedByMerge[f] = true
 						sc, dd := g.full(cur, L)
 						chs = append(chs, change{op: fmt.Sprintf("mod %d %d %d %d %s", b, f, cur, L, sc), name: name,
 							ch:   &object.Change{From: entry(name, blob(rng, blobCache, cur)), To: entry(name, blob(rng, blobCache, L))},
@@ -444,6 +448,11 @@ func main() {
 				}
 			}
 			fmt.Fprintf(wo, "merge %s\n", strings.Join(ms, ","))
+			// files the merge commit did not touch on any branch must come out of Merge exactly as they went in
+			before := map[int]map[string][][2]int{}
+			for _, b := range all {
+				before[b], _, _, _ = leaves.VerifBurndownState(g.brs[b])
+			}
 			func() {
 				defer func() {
 					if r := recover(); r != nil {
@@ -469,6 +478,29 @@ func main() {
 							hv.Fail("merge-mark-left", fmt.Sprintf(`{"seed":%d,"case":%d,"branch":%d,"file":%q}`, seed, it, b, fname),
 								fmt.Sprintf("after the merge of branches %v, branch %d still has unresolved (merge-marked) lines from line %d of %s", all, b, nd[0], fname))
 						}
+					}
+				}
+			}
+			// ... and for every file the merge commit touched on some branch all participating branches agree: they
+			// all lack it or all hold the same interval list (statement of theorem merge_all_identical on the real code)
+			for _, b := range all {
+				after, _, _, _ := leaves.VerifBurndownState(g.brs[b])
+				for f := 0; f < 4; f++ {
+					fname := fmt.Sprintf("f%d", f)
+					if !touchedByMerge[f] && fmt.Sprint(before[b][fname]) != fmt.Sprint(after[fname]) {
+						hv.Fail("merge-frame", fmt.Sprintf(`{"seed":%d,"case":%d,"branch":%d,"file":%q}`, seed, it, b, fname),
+							fmt.Sprintf("the merge commit did not touch %s on any branch, yet Merge changed it on branch %d from %v to %v", fname, b, before[b][fname], after[fname]))
+					}
+				}
+			}
+			for f := range touchedByMerge {
+				fname := fmt.Sprintf("f%d", f)
+				ref0, _, _, _ := leaves.VerifBurndownState(g.brs[all[0]])
+				for _, b := range all[1:] {
+					bf, _, _, _ := leaves.VerifBurndownState(g.brs[b])
+					if fmt.Sprint(bf[fname]) != fmt.Sprint(ref0[fname]) {
+						hv.Fail("merge-disagree", fmt.Sprintf(`{"seed":%d,"case":%d,"branches":%q,"file":%q}`, seed, it, fmt.Sprint(all), fname),
+							fmt.Sprintf("after the merge branch %d holds %v for %s, branch %d holds %v", all[0], ref0[fname], fname, b, bf[fname]))
 					}
 				}
 			}
